@@ -29,9 +29,31 @@ Theorem C15_load_coordinate : forall (b S k a : Z) (c cb : Q), 0 < b ->
    == c + inject_Z (b * k + a) - (inject_Z (b * S) - 1) / 2)%Q.
 Proof. exact load_coordinate. Qed.
 
+(** binning twice = binning once by the product: same scale, same molecule positions (any mix of single / batch loaders) ... *)
+Theorem C15_binning_composes : forall (k1 k2 k : bool) (b1 b2 : Z) (scale pos : Q), 1 < b1 -> 1 < b2 ->
+  (new_scale k2 b2 (new_scale k1 b1 scale) == new_scale k (b1 * b2) scale)%Q /\
+  (new_pos k2 b2 (new_scale k1 b1 scale) (new_pos k1 b1 scale pos) == new_pos k (b1 * b2) scale pos)%Q.
+Proof. exact binning_composes. Qed.
+
+(** ... and, along each axis (block summation is separable), the same voxel values: block sums of block sums are the block sums
+    over b1 * b2, for every signal and every output index *)
+Theorem C15_block_sums_compose : forall (f : Z -> Z) (b1 b2 i : Z), 0 < b1 -> 0 < b2 ->
+  bin1 (bin1 f b1) b2 i = bin1 f (b1 * b2) i.
+Proof. exact bin1_compose. Qed.
+
+Theorem C15_shapes_compose : forall s b1 b2, 0 < b1 -> 0 < b2 -> 0 <= s -> npix (npix s b1) b2 = npix s (b1 * b2).
+Proof. exact npix_compose. Qed.
+
+Example C15_block_sums_compose_nonvacuous :
+  bin1 (bin1 (fun x => x * x + 1) 2) 3 1 = 457 /\ bin1 (fun x => x * x + 1) 6 1 = 457.
+Proof. split; vm_compute; reflexivity. Qed.
+
 Print Assumptions C15_shape.
 Print Assumptions C15_blocks_tile.
 Print Assumptions C15_block_in_range.
 Print Assumptions C15_same_point.
 Print Assumptions C15_b1.
 Print Assumptions C15_load_coordinate.
+Print Assumptions C15_binning_composes.
+Print Assumptions C15_block_sums_compose.
+Print Assumptions C15_shapes_compose.
